@@ -228,6 +228,11 @@ class Ctx:
         if rc == 124 and _retry:
             self.notes.append("coqc hit its %d s limit on %s and was repeated with %d s" % (timeout, os.path.basename(path), 3 * timeout))
             return self._coqc(path, 3 * timeout, extra_flags, _retry=False)
+        if rc < 0 and _retry:
+            # killed by a signal (the kernel's out-of-memory killer on an overloaded machine): not a verdict of Coq
+            self.notes.append("coqc was killed by signal %d on %s and was repeated once" % (-rc, os.path.basename(path)))
+            time.sleep(20)
+            return self._coqc(path, 2 * timeout, extra_flags, _retry=False)
         return rc, out, err
 
     def coq_compare(self, name, header, case_type, obs_type, run, eqb, cases, expected, meta=None,
